@@ -440,6 +440,7 @@ package websocket
 //@ func (*Conn).waitGoroutines
 //@ tags C20
 //@ requires c != nil && c.timeoutLoopDone != nil && c.closed != nil && (c.closeReadCtx != nil ==> c.closeReadDone != nil)
+//@ requires [not-self-join] {C09 C20} gvcNotSelfJoin(c)
 //@ modifies nothing
 //@ ensures [joined] result == nil ==> gvcClosed(c.timeoutLoopDone) && gvcClosed(c.closed) && (c.closeReadCtx != nil ==> gvcClosed(c.closeReadDone))
 //@ ensures [err-kind] !errIs(result, net.ErrClosed) && !errIsCE(result)
@@ -484,6 +485,7 @@ package websocket
 //@ func (*Conn).Close
 //@ tags C06 C20
 //@ requires connReady(c) && !gvcHeld(c.readMu.ch) && !gvcHeld(c.writeFrameMu.ch) && !gvcHeld(c.msgWriter.writeMu.ch) && (c.br != nil || gvcClosed(c.closed)) && c.timeoutLoopDone != nil && (c.closeReadCtx != nil ==> c.closeReadDone != nil)
+//@ requires [not-self-join] {C09 C20} gvcNotSelfJoin(c)
 //@ modifies c.closing, $WRFP, $RDFP, $CLFP
 //@ ensures [second-call] old(c.closing) ==> err != nil
 //@ ensures [second-call-is-errclosed] {C06} old(c.closing) ==> gvcCalls("(*Conn).waitGoroutines") == 1 && (gvcCallRes[error]("(*Conn).waitGoroutines", 0) == nil ==> errIs(err, net.ErrClosed))
@@ -496,6 +498,7 @@ package websocket
 //@ func (*Conn).CloseNow
 //@ tags C06 C20
 //@ requires connReady(c) && !gvcHeld(c.readMu.ch) && !gvcHeld(c.writeFrameMu.ch) && !gvcHeld(c.msgWriter.writeMu.ch) && c.timeoutLoopDone != nil && (c.closeReadCtx != nil ==> c.closeReadDone != nil)
+//@ requires [not-self-join] {C09 C20} gvcNotSelfJoin(c)
 //@ modifies c.closing, $WRFP, $CLFP
 //@ ensures [second-call] old(c.closing) ==> err != nil
 //@ ensures [second-call-is-errclosed] {C06} old(c.closing) ==> gvcCalls("(*Conn).waitGoroutines") == 1 && (gvcCallRes[error]("(*Conn).waitGoroutines", 0) == nil ==> errIs(err, net.ErrClosed))
@@ -1043,6 +1046,7 @@ package websocket
 //@ requires netConnInv(nc) && !gvcHeld(nc.c.readMu.ch)
 //@ requires [conn-open] nc.readExpired == 1 || nc.readEOFed || (connOpen(nc.c) && ghconn(io.Reader(nc.c.msgReader.readFunc)) == nc.c && nc.c.msgReader.readFunc != nil)
 //@ requires [join-state] nc.c.timeoutLoopDone != nil && (nc.c.closeReadCtx != nil ==> nc.c.closeReadDone != nil)
+//@ requires [not-self-join] gvcNotSelfJoin(nc.c)
 //@ requires [reader-owner] nc.reader != nil ==> ghconn(nc.reader) == nc.c
 //@ opt noframe=mem:u8
 //@ modifies nc.readEOFed, nc.reader, bytes(p), $NRD, $NWR, $NCL, $NMR, nc.c.closing
@@ -1068,6 +1072,7 @@ package websocket
 //@ requires netConnInv(nc) && !gvcHeld(nc.c.readMu.ch) && !gvcHeld(nc.readMu.ch)
 //@ requires [conn-open] nc.readExpired == 1 || nc.readEOFed || (connOpen(nc.c) && ghconn(io.Reader(nc.c.msgReader.readFunc)) == nc.c && nc.c.msgReader.readFunc != nil)
 //@ requires [join-state] nc.c.timeoutLoopDone != nil && (nc.c.closeReadCtx != nil ==> nc.c.closeReadDone != nil)
+//@ requires [not-self-join] gvcNotSelfJoin(nc.c)
 //@ requires [reader-owner] nc.reader != nil ==> ghconn(nc.reader) == nc.c
 //@ opt noframe=mem:u8
 //@ modifies chanstate(nc.readMu.ch), nc.readEOFed, nc.reader, bytes(p), $NRD, $NWR, $NCL, $NMR, nc.c.closing
@@ -1080,12 +1085,13 @@ package websocket
 //@ loop 1 modifies nc.readEOFed, nc.reader, bytes(p), $NRD, $NWR, $NCL, $NMR, nc.c.closing
 //@ loop 1 invariant [inv] netConnInv(nc) && gvcHeld(nc.readMu.ch) && !gvcHeld(nc.c.readMu.ch) && gvcSameSlice(p, old(p)) && nc.c == old(nc.c) && nc.readMu == old(nc.readMu) && nc.c.br == old(nc.c.br)
 //@ loop 1 invariant [conn-open] nc.readExpired == 1 || nc.readEOFed || (connOpen(nc.c) && ghconn(io.Reader(nc.c.msgReader.readFunc)) == nc.c && nc.c.msgReader.readFunc != nil)
-//@ loop 1 invariant [join-state] nc.c.timeoutLoopDone != nil && (nc.c.closeReadCtx != nil ==> nc.c.closeReadDone != nil)
+//@ loop 1 invariant [join-state] nc.c.timeoutLoopDone != nil && (nc.c.closeReadCtx != nil ==> nc.c.closeReadDone != nil) && gvcNotSelfJoin(nc.c)
 //@ loop 1 invariant [reader-owner] nc.reader != nil ==> ghconn(nc.reader) == nc.c
 
 //@ func (*netConn).Close
 //@ tags C18
 //@ requires netConnInv(nc) && nc.writeTimer != nil && nc.readTimer != nil && connReady(nc.c) && !gvcHeld(nc.c.readMu.ch) && !gvcHeld(nc.c.writeFrameMu.ch) && !gvcHeld(nc.c.msgWriter.writeMu.ch) && (nc.c.br != nil || gvcClosed(nc.c.closed)) && nc.c.timeoutLoopDone != nil && (nc.c.closeReadCtx != nil ==> nc.c.closeReadDone != nil)
+//@ requires [not-self-join] gvcNotSelfJoin(nc.c)
 //@ modifies nc.c.closing, $NWR, $NRD, $NCL
 //@ ensures [closes-normal] gvcCalls("(*Conn).Close") == 1 && gvcCallArg[StatusCode]("(*Conn).Close", 1) == StatusNormalClosure && gvcCallArg[*Conn]("(*Conn).Close", 0) == nc.c && result == gvcCallRes[error]("(*Conn).Close", 0)
 //@ ensures [cancels-both] gvcCalls("context.CancelFunc") == 2
@@ -1167,11 +1173,13 @@ package websocket
 // The goroutine started by CloseRead (function literal 1 of CloseRead), verified as a
 // function of its captured variables: whatever the reader returns, the connection is closed,
 // the context handed to the caller is cancelled and closeReadDone is closed (what Close /
-// CloseNow wait for); a data message closes the connection with StatusPolicyViolation.
+// CloseNow wait for); a data message closes the connection with StatusPolicyViolation. It
+// never joins the connection's goroutines itself ([no-self-join]: it is one of them).
 
 //@ func (*Conn).CloseRead$1
 //@ tags C20 C09
 //@ requires connReady(c) && ctx != nil && !gvcHeld(c.readMu.ch) && !gvcHeld(c.writeFrameMu.ch) && !gvcHeld(c.msgWriter.writeMu.ch) && (c.br != nil || gvcClosed(c.closed)) && ghconn(io.Reader(c.msgReader.readFunc)) == c && c.msgReader.readFunc != nil
+//@ requires [closer] gvcCloser(c.closeReadDone) && !gvcCloser(c.timeoutLoopDone) && c.closeReadCtx != nil
 //@ requires [join-state] c.timeoutLoopDone != nil && c.closeReadDone != nil && !gvcClosed(c.closeReadDone) && gvcDistinct7(c.closeReadDone, c.closed, c.readMu.ch, c.writeFrameMu.ch, c.msgWriter.mu.ch, c.msgWriter.writeMu.ch, c.timeoutLoopDone)
 //@ opt noframe=mem:u8
 //@ modifies $RDFP, $WRFP, $CLFP, c.msgReader.ctx, c.msgReader.flate, c.msgReader.limitReader.n, c.msgReader.limitReader.r, c.msgReader.fin, c.msgReader.payloadLength, c.msgReader.maskKey, c.msgReader.flateBufio, c.msgReader.flateTail, c.closing, chanstate(c.closeReadDone), chanstate(c.writeFrameMu.ch)
@@ -1179,8 +1187,9 @@ package websocket
 //@ ensures [conn-closed] {C20 C09} gvcClosed(c.closed)
 //@ ensures [context-cancelled] {C09} gvcCalls("context.CancelFunc") == 1 && gvcSameRef(gvcCallArg[context.CancelFunc]("context.CancelFunc", 0), cancel)
 //@ ensures [one-reader] gvcCalls("(*Conn).reader") == 1 && gvcCallArg[context.Context]("(*Conn).reader", 1) == ctx
-//@ ensures [data-message-is-policy-violation] gvcCallRes[error]("(*Conn).reader", 2) == nil ==> gvcCalls("(*Conn).Close") == 1 && gvcCallArg[StatusCode]("(*Conn).Close", 1) == StatusPolicyViolation
-//@ ensures [no-close-handshake-otherwise] gvcCallRes[error]("(*Conn).reader", 2) != nil ==> gvcCalls("(*Conn).Close") == 0
+//@ ensures [data-message-is-policy-violation] gvcCallRes[error]("(*Conn).reader", 2) == nil ==> gvcCalls("(*Conn).casClosing") == 1 && (gvcCallRes[bool]("(*Conn).casClosing", 0) ==> gvcCalls("(*Conn).closeHandshake") == 1 && gvcCallArg[StatusCode]("(*Conn).closeHandshake", 1) == StatusPolicyViolation) && (!gvcCallRes[bool]("(*Conn).casClosing", 0) ==> gvcCalls("(*Conn).closeHandshake") == 0)
+//@ ensures [no-close-handshake-otherwise] gvcCallRes[error]("(*Conn).reader", 2) != nil ==> gvcCalls("(*Conn).closeHandshake") == 0 && gvcCalls("(*Conn).casClosing") == 0
+//@ ensures [no-self-join] {C09 C20} gvcCalls("(*Conn).Close") == 0 && gvcCalls("(*Conn).CloseNow") == 0 && gvcCalls("(*Conn).waitGoroutines") == 0
 //@ ensures [order] gvcCallSeq("(*Conn).close") > gvcCallSeq("(*Conn).reader") && gvcCallSeq("context.CancelFunc") > gvcCallSeq("(*Conn).close")
 
 // The slot of timeoutLoop that holds "the context currently allowed to kill the connection"
